@@ -98,7 +98,7 @@ func (v *Verifier) buildQuery(o *Obligation, models bool) (string, []*Term) {
 	}
 	// arithmetic-aware instantiation of quantified facts at the indices the query accesses
 	if !o.Cover {
-		asserts = append(asserts, instantiateQuantifiers(asserts)...)
+		asserts = append(asserts, instantiateQuantifiers(asserts, o.Unit != nil && o.Unit.contract != nil && o.Unit.contract.AliasInst)...)
 	}
 	// theory lemmas bridging bit-vector and integer arithmetic (two rounds)
 	for round := 0; round < 2; round++ {
